@@ -11,7 +11,12 @@ G = os.path.join(ROOT, "lean", "GoWebdav", "Generated")
 E = os.path.join(ROOT, "lean", "GoWebdav", "Expected")
 P = os.path.join(ROOT, "lean", "GoWebdav", "Props", "Pin")
 os.makedirs(P, exist_ok=True)
-KINDS = ["Schema", "StatusSites", "PanicSites", "IndexSites", "ReceiverWrites", "Globals"]
+# tables that are obligations (one Props/Pin module each).  The per-file ones are aggregates in a form that renaming an
+# identifier or moving code between the functions of one file does not change (status literals, panic() calls and the
+# SHAPES of run-time-checked accesses per source file; the receiver TYPES that are written through).
+KINDS = ["Schema", "StatusByFile", "PanicsByFile", "IndexShapesByFile", "ReceiverWriteTypes", "Globals"]
+# snapshot only (no obligation): the per-function texts the guard table Expected/IndexSiteGuards.lean is written against
+SNAPSHOT_ONLY = ["IndexSites"]
 PKGS = ["internal", "webdav", "caldav", "carddav"]
 
 def defs(path):
@@ -36,8 +41,14 @@ for pk in PKGS:
             raise SystemExit("missing generated table " + n)
         body.append(allg[n])
         names.append(n)
+for pk in PKGS:
+    for k in SNAPSHOT_ONLY:
+        body.append(allg[pk + k])
 body.append("end GoWebdav.Expected.Pinned")
 open(os.path.join(E, "Pinned.lean"), "w").write("\n".join(body) + "\n")
+for old in os.listdir(P):
+    if old.endswith(".lean") and old != "IndexGuards.lean":
+        os.remove(os.path.join(P, old))
 for n in names:
     src = "Schema" if n.endswith("Schema") else "Facts"
     mod = n[0].upper() + n[1:]
